@@ -48,6 +48,22 @@ def choke_point(prog, ctx, rule):
     bad = 0
     for f in prog.lib_functions():
         for c in f.calls(OTHER_OPENERS):
+            # opened for writing only (the writer's temporary file, an append-only log): not a way to file content
+            cn, a = c.j.get("callee"), c.call_args()
+            wo = None
+            if cn in ("fdopen", "freopen", "freopen64", "popen"):
+                mi = 2 - 1 if cn != "freopen" and cn != "freopen64" else 1
+                mode = a[mi].string_value() if len(a) > mi else None
+                if mode is not None and mode[:1] in ("w", "a") and "+" not in mode:
+                    wo = "mode %r" % mode
+            elif cn in ("open", "open64", "openat", "openat64"):
+                fi = 1 if cn.startswith("open") and not cn.startswith("openat") else 2
+                flags = a[fi].const_value() if len(a) > fi else None
+                if flags is not None and (flags & 3) == 1:
+                    wo = "flags O_WRONLY"
+            if wo:
+                ctx.ok(rule, "%s() in %s is write-only" % (cn, f.name), c.where, "%s cannot read" % wo)
+                continue
             bad += 1
             ctx.fail(rule, "alternative file reader", c.where,
                      "%s calls %s: a second way to file content that bypasses %s" % (f.name, c.j.get("callee"), GATE),
